@@ -401,7 +401,10 @@ func checkCryptoTables(w *World, r *Report, rels map[string]bool) {
 							addr = x.Addr
 						case *ssa.Call:
 							// copy(tbl[:], …) or passing the table by reference
-							for _, a := range x.Call.Args {
+							for ai, a := range x.Call.Args {
+								if addrBase(a) == ssa.Value(g) && paramReadOnly(x.Call.StaticCallee(), ai, 0) {
+									continue // handed to a function of this repository that only reads through it
+								}
 								if addrBase(a) == ssa.Value(g) {
 									if _, isPtr := a.Type().Underlying().(*types.Pointer); isPtr {
 										addr = a
@@ -513,6 +516,8 @@ func newCryptoInterp(w *World) *Interp {
 	it.MaxDepth = 400
 	it.Fuel = 20000000
 	it.ReadOnlyTables = map[string]bool{"global:sr": true, "global:sq": true, "global:sbox0": true, "global:sbox1": true}
+	it.DerivedTables = true // tap tables, derived lookup tables: followed through their initialiser
+	it.SymbolicGlobals = map[string]bool{"global:ek_d": true}
 	return it
 }
 
@@ -804,4 +809,53 @@ func checkSnowDriver(c *cryptoCtx, n int) {
 		}
 	}
 	c.verdict("drv.snow3g", fname, fmt.Sprintf("n=%d", n), fn.Pos(), it, ok, msg)
+}
+
+
+// paramReadOnly: the function only reads through its i-th (pointer or slice) parameter: every use is
+// a load, an index / field / slice step whose result is again only read, or a call that hands it to a
+// function with the same property (depth <= 3).
+func paramReadOnly(fn *ssa.Function, i int, depth int) bool {
+	if fn == nil || fn.Blocks == nil || fn.Pkg == nil || !IsRepoPkg(fn.Pkg.Pkg) || i >= len(fn.Params) || depth > 3 {
+		return false
+	}
+	var readOnly func(v ssa.Value, seen map[ssa.Value]bool) bool
+	readOnly = func(v ssa.Value, seen map[ssa.Value]bool) bool {
+		if seen[v] {
+			return true
+		}
+		seen[v] = true
+		refs := v.Referrers()
+		if refs == nil {
+			return false
+		}
+		for _, r := range *refs {
+			switch u := r.(type) {
+			case *ssa.UnOp:
+				if u.Op != token.MUL {
+					return false
+				}
+				// the loaded value: an array value or an element - reading is fine
+			case *ssa.IndexAddr, *ssa.FieldAddr, *ssa.Slice:
+				if !readOnly(u.(ssa.Value), seen) {
+					return false
+				}
+			case *ssa.DebugRef:
+			case *ssa.Call:
+				ok := false
+				for ai, a := range u.Call.Args {
+					if a == v {
+						ok = paramReadOnly(u.Call.StaticCallee(), ai, depth+1)
+					}
+				}
+				if !ok {
+					return false
+				}
+			default:
+				return false
+			}
+		}
+		return true
+	}
+	return readOnly(fn.Params[i], map[ssa.Value]bool{})
 }
